@@ -6,6 +6,8 @@
 package main
 
 import (
+	"syscall"
+	"context"
 	"bytes"
 	"encoding/json"
 	"flag"
@@ -116,7 +118,17 @@ func isFlagSet(name string) bool {
 // supervise runs the child and interprets an unexpected death.
 func supervise(prop, tier string) int {
 	self, _ := os.Executable()
-	cmd := exec.Command(self, "-prop", prop, "-tier", tier)
+	// A generous wall-clock bound around the whole check (its firing is inconclusive, never a
+	// verdict): a library call that never returns inside an in-process monitor must not hang the run.
+	limit := 30 * time.Minute
+	if tier == "thorough" {
+		limit = 3 * time.Hour
+	}
+	ctx, cancel := context.WithTimeout(context.Background(), limit)
+	defer cancel()
+	cmd := exec.CommandContext(ctx, self, "-prop", prop, "-tier", tier)
+	cmd.Cancel = func() error { return cmd.Process.Signal(syscall.SIGQUIT) } // leaves a goroutine dump
+	cmd.WaitDelay = 20 * time.Second
 	cmd.Env = append(os.Environ(), "VCHECK_CHILD=1")
 	cmd.Stdout = os.Stdout
 	var errb tailBuffer
@@ -124,6 +136,17 @@ func supervise(prop, tier string) int {
 	start := time.Now()
 	err := cmd.Run()
 	tail := errb.String()
+	if ctx.Err() != nil {
+		where := ""
+		for _, l := range strings.Split(tail, "\n") {
+			if strings.Contains(l, "github.com/foxboron/go-uefi/") && !strings.Contains(l, "\t") {
+				where = strings.TrimSpace(l)
+				break
+			}
+		}
+		fmt.Printf("INCONCLUSIVE: property=%s the check did not finish within %v (first library frame in the goroutine dump: %s)\n", prop, limit, where)
+		return 2
+	}
 	if strings.Contains(tail, "VCHECK-DONE code=") {
 		if ee, ok := err.(*exec.ExitError); ok {
 			return ee.ExitCode()
